@@ -246,5 +246,29 @@ theorem even_double_sum (g : Nat → Nat → Nat) (hs : ∀ a b, g a b = g b a) 
     obtain ⟨k, hk⟩ := ih
     exact ⟨k + ∑ x ∈ Finset.range N, g x N, by omega⟩
 
+/-! ### a concrete good graph (non-vacuity): a triangle, a pendant path and an isolated vertex -/
+
+/-- `Graph(6)` after `add_edge` of 1-2, 2-3, 1-3, 4-5 -/
+def exG : SimpleG :=
+  ⟨6, 4, [[], [2, 3], [1, 3], [1, 2], [5], [4], []],
+    [(5, 4), (4, 5), (3, 1), (1, 3), (3, 2), (2, 3), (2, 1), (1, 2)]⟩
+
+theorem exG_reachable : SimpleG.ofEdges 6 [(1, 2), (2, 3), (1, 3), (4, 5)] = .ok exG := by decide
+
+theorem exG_good : GoodGraph exG := by decide
+
+theorem exG_vertices {v : Nat} (h1 : 1 ≤ v) (h2 : v ≤ exG.n) :
+    v = 1 ∨ v = 2 ∨ v = 3 ∨ v = 4 ∨ v = 5 ∨ v = 6 := by
+  have : v ≤ 6 := h2
+  omega
+
+/-- the triangle `{1,2,3}` of `exG` is closed under adjacency -/
+theorem exG_triangle_closed :
+    ∀ v u, decide (v ≤ 3) = true → u ∈ exG.nbrs v → decide (u ≤ 3) = true := by
+  intro v u hv hu
+  simp only [decide_eq_true_eq] at hv ⊢
+  have : v = 0 ∨ v = 1 ∨ v = 2 ∨ v = 3 := by omega
+  rcases this with rfl | rfl | rfl | rfl <;> simp [exG, SimpleG.nbrs] at hu <;> omega
+
 end Fam
 end Cnfgen
